@@ -132,6 +132,13 @@ PROPS = {
                     "linearizability: the witness order is searched by the harness and CHECKED in Coq against the memory-store model"],
         "assumptions": ["values are the ones the handler writes (parsing non-empty ID token, four non-empty login-state members) for the Redis/spec comparison"],
     },
+    "C17": {
+        "modules": ["Properties.C17"],
+        "theorems": ["C17_no_panic", "C17_accept_sound", "C17_merge_fieldwise"],
+        "describe_item": (lambda d, it: {"origin": d.get("origin"), "class": d.get("class"), "message": d.get("message")}),
+        "trusted": ["protojson decoding, net/url.Parse, redis.ParseURL and net.ParseIP are oracles whose answers the harness attaches to the decoded document; proto.Merge and the generated ValidateAll rules are MODELLED (Config/Loader.v) and tied to the code by comparing class and accepted configuration on every generated document"],
+        "assumptions": ["the model starts from the decoded message: documents protojson rejects are only checked for 'error, not panic'"],
+    },
     "C03": {
         "modules": ["Properties.C03"],
         "theorems": ["C03_login_completes", "C03_lifetime"],
